@@ -1,8 +1,23 @@
-"""C03 -- FlatSet is observationally a std::set for every operation history (E2)."""
-from checks import e1, e2
+"""C03 -- FlatSet is observationally a std::set for every operation history (E2), plus the bulk paths on sets and ranges
+of up to 24 (thorough: 40) equivalence classes, where which of several equivalent elements survives is observable and
+std::sort stops being incidentally stable (grid_c03.cpp)."""
+import re
+
+from checks import e1, e2, grids
 
 
 def run(ctx):
-    matrix = e2.flat_quick() if ctx.tier == "quick" else e2.flat_thorough()
+    q = ctx.tier == "quick"
+    matrix = e2.flat_quick() if q else e2.flat_thorough()
     cov = e1.explore(ctx, matrix, ["C03"], engine="E2", eng=e2.ENG)
-    return ctx.finish("model_checking", cov, e2.ASSUME)
+    base = ["-std=c++17", "-O1", "-g1", "-w", "-DAMC_NONSTD_FEATURES", "-fsanitize=address"]
+    configs = [("%s-%s" % (vn, cn), base + ["-DC03_VEC=%d" % vec, "-DC03_CMP=%d" % cmp])
+               for vec, vn in ((0, "amcvector"), (1, "smallvector4"), (2, "fixed96"), (3, "stdvector")) for cmp, cn in ((0, "asc"), (1, "desc"))
+               if not q or (vec + cmp) % 2 == 0]
+    g = grids.run_grids(ctx, "grid_c03.cpp", "G03", configs, ["--nmax", "24" if q else "40"],
+                        lambda f: re.sub(r"\d+", "#", f.split("|")[0] + "|" + f.split("|")[-1].split(":")[0]),
+                        "one bulk operation on one (held set, range) pair compared element by element with std::set")
+    cov["bulk_grid_points"] = g["evaluations"]
+    cov["bulk_grid_points_above_16_elements"] = sum(c.get("above_16_elements", 0) for c in g["configurations"])
+    cov["samples"] = cov["samples"][:10] + [{"bulk grid point": s} for s in g["samples"][:2]]
+    return ctx.finish("model_checking", cov, e2.ASSUME + ["bulk grid: among equivalent elements of ONE inserted range any may survive (unspecified, LWG 2844); an element already held always stays"])
